@@ -364,7 +364,8 @@ Definition shift (d : dir) (dh : option death) : option death :=
      an exception nobody catches         except Exception: handle_error(1)
    With fixes/C10-3.diff (fsafe = true) both except clauses re-raise in a process that is not the job.
    The child's life is one moment of the body (the parent waits for it).                              *)
-Inductive cexit := CQuit | CExit (c : Z) | CRaise.
+Inductive cexit := CQuit | CExit (c : Z) | CRaise | CReturn.
+(* CReturn: the child returns from the body as if it were the job: remove_signal_handlers(False), sys.exit(0) *)
 
 Definition to_ceff (e : eff) : list ceff :=
   match e with
@@ -384,6 +385,7 @@ Definition child_effects (v : variant) (fsafe : bool) (ce : cexit) (s : st) : li
   | CQuit => []
   | CExit c => if (c =? 0)%Z then [CTouchDone] else flat_map to_ceff (handle_error v c (hooked s))
   | CRaise => flat_map to_ceff (handle_error v 1 (hooked s))
+  | CReturn => [CTouchDone]
   end.
 
 Definition fork_step (v : variant) (fsafe : bool) (fk : option cexit) : blk :=
@@ -428,3 +430,45 @@ Definition wellbehaved (fk : option cexit) : bool :=
 Definition in_body_f (v : variant) (fsafe : bool) (fk : option cexit) (o : outcome) (d : dir) (k : nat) : Prop :=
   (exists b, nth_error (trace_f v fsafe fk o d) k = Some (BodyEnd b)) \/
   (exists l, nth_error (trace_f v fsafe fk o d) k = Some (Child l)).
+
+
+(* ================================================================ the end-of-job notification
+   cleanup() ends with `if self.started: report_eoj()`, which can raise (an entry of .notifications that
+   cannot be read, the folder removed by the task...).  What a raising notification does to a run that
+   ends by itself depends on WHERE in cleanup it is called: last (the code), or before the pid file is
+   removed and the lock released (`NotifyFirst`: then the rest of cleanup is skipped, and `cleaned` is
+   already set, so nobody does it later).  nf = the notification raises.  started = the body has begun
+   in this process.  The exception leaves handle_error before its sys.exit(1) and, raised inside an except
+   clause or the exit callback, is not caught again: no further effect on the directory.              *)
+Inductive norder := NotifyLast | NotifyFirst.
+
+Definition cleanup_n (ord : norder) (nf started : bool) (v : variant) : blk :=
+  when (fun s => negb (cleaned s))
+       (seq (emit SetCleaned)
+            (if (match ord with NotifyFirst => nf && started | NotifyLast => false end)%bool then nop
+             else seq (when (owner v) rmfile_pid) (when (fun s => noted s && lock s) (emit Unlock)))).
+
+Definition handle_error_n (ord : norder) (nf : bool) (v : variant) (c : Z) : blk :=
+  seq (when (owner v) (emit (WriteFailed c))) (cleanup_n ord nf true v).
+
+Definition after_body_n (ord : norder) (nf : bool) (v : variant) (o : outcome) : tblk :=
+  match o with
+  | OOk =>
+      tseq (at_ CTry (seq (emits [RestoreTerm; RestoreInt])
+                          (match v with Prefix => emit UnregAtexit | _ => nop end)))
+           (at_ CProp (emit TouchDone))
+  | ORaise => at_ CProp (handle_error_n ord nf v 1)
+  | OExit c => if (c =? 0)%Z then at_ CProp (emit TouchDone) else at_ CProp (handle_error_n ord nf v c)
+  | OBase => fun _ => []
+  end.
+
+(* the undisturbed run *)
+Definition runner_n (ord : norder) (nf : bool) (v : variant) (o : outcome) : tblk :=
+  tseq (at_ CProp (emits [RegAtexit; SetTerm; SetInt]))
+ (tseq (at_ CTry (emits [Lock; NoteLock; TestDone]))
+       (fun s => if done s then at_ CAtexit (when atexit (cleanup_n ord nf false v)) s
+                 else tseq (tseq (at_ CTry (seq rmfile_failed (body o))) (after_body_n ord nf v o))
+                           (at_ CAtexit (when atexit (cleanup_n ord nf true v))) s)).
+
+Definition end_n (ord : norder) (nf : bool) (v : variant) (d : dir) (o : outcome) : st :=
+  run_effs (map snd (runner_n ord nf v o (boot d))) (boot d).
